@@ -1,7 +1,7 @@
 INIT Init
 NEXT Next
 CONSTANTS
-  MaxCoord = 2
+  MaxCoord = 3
   FeatStrands = {"+"}
   QStrands = {"."}
   NContigs = 1
@@ -10,7 +10,7 @@ CONSTANTS
   MaxSorts = 2
   MaxQueries = 2
   BetweenOn = TRUE
-  AnnotLevel = 1
+  AnnotLevel = 2
   UnsortedQueries = TRUE
   TrackHist = FALSE
   Variant = "design"
